@@ -24,7 +24,7 @@ cp "$S/demo_test.go" "$DEMO_DST"
 PKG=./$(dirname "$DEMO_DST")
 if go test -vet=off -count=1 -run 'TestSeeded' $PKG > /tmp/demo_with.$$ 2>&1; then WITH=pass; else WITH=fail; fi
 echo "--- demo with the change (must fail): $WITH"; grep -E "^\s+.*_test.go:|^--- FAIL|panic:" /tmp/demo_with.$$ | head -5 | cut -c1-300
-git checkout -q -- .
+git checkout -q -- . ; git clean -fdq -e SEEDED -e TASK.md -e "$DEMO_DST"
 if go test -vet=off -count=1 -run 'TestSeeded' $PKG > /tmp/demo_without.$$ 2>&1; then WITHOUT=pass; else WITHOUT=fail; fi
 echo "--- demo without the change (must pass): $WITHOUT"; [ $WITHOUT = fail ] && tail -5 /tmp/demo_without.$$ | cut -c1-300
 rm -f "$DEMO_DST" /tmp/demo_with.$$ /tmp/demo_without.$$
